@@ -897,9 +897,18 @@ def indicator(op, d: Rat) -> Rat:
     raise AnalysisError(f"comparison {op}")
 
 
+ABS_HOOK = None     # set by the current World: fn(Rat) -> '+','-','0',None
+
+
 def opaque_fn(name, x: Rat) -> Rat:
     if name == 'abs' and x.is_const():
         return Rat.const(abs(x.const_value()))
+    if name == 'abs' and ABS_HOOK is not None:
+        s = ABS_HOOK(x)
+        if s in ('+', '0'):
+            return x
+        if s == '-':
+            return -x
     if x.is_const():
         v = x.const_value()
         if name in ('sin',) and v == 0:
